@@ -15,3 +15,10 @@ def three_or_more_inputs(rec):
     t = rec.get('task', {})
     shapes = t.get('shapes_') or t.get('shapes') or []
     return len(shapes) >= 3
+
+
+def bound_keyword_named_like_star_parameter(rec):
+    rp = rec.get('replay', {})
+    if rp.get('status') == 'replay-skipped':
+        return True
+    return any(k in (rp.get('star_names') or []) for k in (rp.get('keywords') or {}))
